@@ -4,7 +4,7 @@ import os, re, subprocess
 import vlib
 
 REPO = vlib.REPO
-WRAPS = "pthread_create pthread_mutex_lock pthread_mutex_unlock pthread_cond_wait pthread_cond_signal pthread_kill pthread_cancel sigwait sleep time raise poll read close fputs exit".split()
+WRAPS = "pthread_create pthread_mutex_lock pthread_mutex_unlock pthread_cond_wait pthread_cond_signal pthread_kill pthread_cancel sigwait sleep time raise poll read close fputs exit Malloc Realloc".split()
 SRCS = [os.path.join(REPO, "src/pdsh", f + ".c") for f in ("dsh", "mod", "rcmd", "opt", "privsep", "pcp_server", "pcp_client", "testcase", "wcoll", "cbuf")] + \
        [os.path.join(REPO, "src/common", f + ".c") for f in ("err", "fd", "hostlist", "list", "pipecmd", "split", "xmalloc", "xpoll", "xstring")]
 
